@@ -25,6 +25,8 @@ def run(tier, seed, replay=None):
     tu = cfront.TU(CSRC)
     X = cext.make_externals()
     step_common.add_step_obligations(ck, tu, X, want=("C06",))
+    from checks import attrs_common
+    attrs_common.add_attr_obligations(ck, tu, X)
     ck.finding_preds["F1"] = f1_pred
     ck.replayers["digital_rf_create_rf_data_index"] = replay_index.replay
     ck.replayers["assert.digital_rf_create_rf_data_index"] = replay_index.replay
